@@ -770,7 +770,9 @@ def write_cache_time(f: IO[bytes], t: int | float | tuple[int, int]) -> None:
             t = (t[0] + 1, 0)
     elif not isinstance(t, tuple):
         raise TypeError(t)
-    f.write(struct.pack(">LL", *t))
+    # the fields are 32 bits wide: like git (and like dev, ino and size
+    # below) keep the low bits of a time before 1970 or after 2106
+    f.write(struct.pack(">LL", t[0] & 0xFFFFFFFF, t[1] & 0xFFFFFFFF))
 
 
 def read_cache_entry(
